@@ -279,7 +279,7 @@ pub fn run_c06(ctx: &mut Ctx, _known: &Known) {
         forms.push((format!("list(key) x{}", k), vec![("G".into(), map1("o", members.clone())), ("condition".into(), ys("G"))], Box::new(|v| t_or(v)), true));
         for (name, det, table, nested) in forms {
             let ds: Vec<Yaml> = if nested { vs.iter().map(|v| nested_doc_for(v)).collect() } else { docs.clone() };
-            let c = case(det, ds, masks.clone());
+            let c = case(det, ds, vec![0, 15, 14, 10, 8]);
             let (ex, parsed) = run_rule_case(ctx, &c, false);
             let ry = rule_yaml(&c);
             let p = match parsed {
@@ -305,16 +305,18 @@ pub fn run_c06(ctx: &mut Ctx, _known: &Known) {
             // implementation's reply (a difference the faithful model reproduces is a C01 matter,
             // decided by the C01 check and its recorded findings)
             if !ex.agree {
-                let got15 = tri_of(&p, 15);
-                for (j, v) in vs.iter().enumerate() {
-                    let want = table(v);
-                    let g = got15.get(j).map(|s| s.as_str());
-                    if (g == Some("T")) != (want.name() == "T") {
-                        ctx.violation(
-                            "oracle",
-                            &format!("form `{}` operands {:?}, optimised (mask 15): engine gives {:?}, truth table gives {}", name, v, g, want.name()),
-                            &ex, &ry, true);
-                        break;
+                'masks: for mask in [15u64, 14, 10, 8] {
+                    let got15 = tri_of(&p, mask);
+                    for (j, v) in vs.iter().enumerate() {
+                        let want = table(v);
+                        let g = got15.get(j).map(|s| s.as_str());
+                        if (g == Some("T")) != (want.name() == "T") {
+                            ctx.violation(
+                                "oracle",
+                                &format!("form `{}` operands {:?}, optimised (mask {}): engine gives {:?}, truth table gives {}", name, v, mask, g, want.name()),
+                                &ex, &ry, true);
+                            break 'masks;
+                        }
                     }
                 }
             }
@@ -475,6 +477,7 @@ pub fn run_c05(ctx: &mut Ctx, _known: &Known) {
         Cond::All("A".into()),
         Cond::Of("B".into(), 1),
         Cond::Cmp("f0".into(), "int", ">=", "1".into()),
+        Cond::Cmp("f1".into(), "int", ">", "50".into()),
     ];
     let max_nodes = if ctx.tier == "thorough" { 6 } else { 5 };
     let mut all: Vec<Cond> = vec![];
@@ -1209,6 +1212,46 @@ pub fn run_c09(ctx: &mut Ctx, _known: &Known) {
             }
         }
     }
+    // (1e) a list of numbers matches exactly its members (repeats and gaps included), under a plain
+    //      key, a cast key and the quantifiers, plain and with every optimisation switch family
+    {
+        let lists: Vec<Vec<i64>> = vec![vec![8080, 8080, 8082], vec![-1, 1, -1], vec![1, 3, 3], vec![1, 2, 3], vec![5, 4, 3, 2], vec![0, 2], vec![7, 7, 7], vec![1, 2, 2, 4, 5], vec![10, 11, 12, 14]];
+        for l in &lists {
+            let lo = *l.iter().min().unwrap() - 1;
+            let hi = *l.iter().max().unwrap() + 1;
+            let vals: Vec<i64> = (lo..=hi).collect();
+            let ldocs: Vec<Yaml> = vals.iter().map(|v| map1("f", Yaml::Number((*v).into()))).chain(vals.iter().map(|v| map1("f", ys(&v.to_string())))).collect();
+            let seq = Yaml::Sequence(l.iter().map(|v| Yaml::Number((*v).into())).collect());
+            for (key, kind) in [("f", "plain"), ("int(f)", "int"), ("of(f, 1)", "of1"), ("all(f)", "all"), ("of(f, 2)", "of2")] {
+                let cs = case(vec![("A".into(), map1(key, seq.clone())), ("condition".into(), ys("A"))], ldocs.clone(), vec![0, 15, 4, 5, 12]);
+                let (ex, parsed) = run_rule_case(ctx, &cs, false);
+                let p = match parsed {
+                    Some(p) if p.load == "ok" => p,
+                    _ => continue,
+                };
+                let distinct: std::collections::BTreeSet<i64> = l.iter().cloned().collect();
+                for m in &p.masks {
+                    for (j, d) in ldocs.iter().enumerate() {
+                        let (v, is_str) = if j < vals.len() { (vals[j], false) } else { (vals[j - vals.len()], true) };
+                        let _ = d;
+                        // a numeric member matches a number equal to it; a string only through int()
+                        let hits = if is_str && kind != "int" { 0 } else { l.iter().filter(|x| **x == v).count() };
+                        let want = match kind {
+                            "plain" | "int" | "of1" => hits >= 1,
+                            "all" => hits == l.len(),
+                            _ => hits >= 2,
+                        };
+                        let _ = &distinct;
+                        ctx.nontrivial.insert(hash_str(&format!("intlist{:?}{}{}", l, key, j)));
+                        if (m.res[j].0 == "T") != want {
+                            ctx.violation("oracle", &format!("`{}: {:?}` (mask {}) on f = {}{}: engine {}, the list says {}", key, l, m.mask, v, if is_str { " (a string)" } else { "" }, m.res[j].0, want), &ex, &rule_yaml(&cs), true);
+                            break;
+                        }
+                    }
+                }
+            }
+        }
+    }
     // (2) casts in the condition: int(f) op n, flt(f) op x, n op int(f)
     for op in ["==", ">", ">=", "<", "<="] {
         for c in ["0", "1", "5", "9223372036854775807", "-1"] {
@@ -1904,6 +1947,85 @@ pub fn run_c10(ctx: &mut Ctx, _known: &Known) {
                         let want = if neg { !holds_ } else { *holds_ };
                         if (m.res[j].0 == "T") != want {
                             ctx.violation("oracle", &format!("`{}` over a two-key nested mapping (mask {}) on {}: engine {}, 'some element satisfies the whole block' gives {}", cond, m.mask, serde_yaml::to_string(&dd[j]).unwrap_or_default().replace('\n', " "), m.res[j].0, want), &ex, &rule_yaml(&c), true);
+                            break;
+                        }
+                    }
+                }
+            }
+        }
+    }
+    // a nested mapping whose block is a QUANTIFIED key (of(k, n), n >= 2): over an array one element
+    // has to reach the count; and a block under a DOTTED key is the block at that path (objects all
+    // the way), never a search through arrays on the way
+    {
+        let el = |x: &str| map1("x", ys(x));
+        let qdocs: Vec<(Yaml, bool)> = vec![
+            (map1("k", Yaml::Sequence(vec![el("abc"), el("xyz")])), false),
+            (map1("k", Yaml::Sequence(vec![el("abz"), el("q")])), true),
+            (map1("k", el("abz")), true),
+            (map1("k", el("abc")), false),
+            (map1("k", Yaml::Sequence(vec![])), false),
+            (map1("k", Yaml::Sequence(vec![el("q"), el("az")])), true),
+        ];
+        let dd: Vec<Yaml> = qdocs.iter().map(|(d, _)| d.clone()).collect();
+        for members in [vec!["a*", "?.*z$"], vec!["a*", "?z$", "?^q"], vec!["?^a", "*z"]] {
+            let body = map1("of(x, 2)", Yaml::Sequence(members.iter().map(|m| ys(m)).collect()));
+            for (cond, neg) in [("A", false), ("not A", true)] {
+                let c = case(vec![("A".into(), map1("k", body.clone())), ("condition".into(), ys(cond))], dd.clone(), vec![0, 15, 3]);
+                let (ex, parsed) = run_rule_case(ctx, &c, false);
+                if let Some(p) = parsed {
+                    if p.load != "ok" { continue; }
+                    for m in &p.masks {
+                        for (j, (_, h)) in qdocs.iter().enumerate() {
+                            ctx.nontrivial.insert(hash_str(&format!("nestedof{:?}{}{}", members, cond, j)));
+                            let want = if neg { !h } else { *h };
+                            if (m.res[j].0 == "T") != want {
+                                ctx.violation("oracle", &format!("`{}` over k: {{of(x, 2): {:?}}} (mask {}) on {}: engine {}, 'one element reaches the count' gives {}", cond, members, m.mask, serde_yaml::to_string(&dd[j]).unwrap_or_default().replace('\n', " "), m.res[j].0, want), &ex, &rule_yaml(&c), true);
+                                break;
+                            }
+                        }
+                    }
+                }
+            }
+        }
+        let leaf = |v: &str| map1("c", ys(v));
+        let pdocs: Vec<Yaml> = vec![
+            map1("a", Yaml::Sequence(vec![map1("b", leaf("x"))])),
+            map1("a", map1("b", leaf("x"))),
+            map1("a", map1("b", leaf("y"))),
+            map1("a", map1("b", Yaml::Sequence(vec![leaf("x"), leaf("y")]))),
+            map1("a", Yaml::Number(5u64.into())),
+            map1("a", Yaml::Sequence(vec![])),
+            mapn(vec![("a.b".into(), leaf("x")), ("a".into(), Yaml::Number(1u64.into()))]),
+            map1("a", Yaml::Sequence(vec![map1("b", leaf("y")), map1("b", leaf("x"))])),
+        ];
+        for cond in ["A", "not A"] {
+            let c1 = case(vec![("A".into(), map1("a.b", leaf("x"))), ("condition".into(), ys(cond))], pdocs.clone(), vec![0, 15]);
+            let c2 = case(vec![("A".into(), map1("a", map1("b", leaf("x")))), ("condition".into(), ys(cond))], pdocs.clone(), vec![0, 15]);
+            let (ex1, p1) = run_rule_case(ctx, &c1, false);
+            let (_ex2, p2) = run_rule_case(ctx, &c2, false);
+            if let (Some(p1), Some(p2)) = (p1, p2) {
+                if p1.load != "ok" || p2.load != "ok" { continue; }
+                for mask in [0u64, 15] {
+                    let (r1, r2) = (tri_of(&p1, mask), tri_of(&p2, mask));
+                    for (j, d) in pdocs.iter().enumerate() {
+                        ctx.nontrivial.insert(hash_str(&format!("dottedblock{}{}{}", cond, mask, j)));
+                        // expected for the dotted block key: resolve a.b structurally, then the block
+                        let at = d.as_mapping().and_then(|m| m.get(ys("a"))).and_then(|a| a.as_mapping()).and_then(|m| m.get(ys("b"))).cloned();
+                        let inner = match &at {
+                            Some(Yaml::Mapping(m)) => Some(m.get(ys("c")).and_then(|v| v.as_str()) == Some("x")),
+                            Some(Yaml::Sequence(xs)) => Some(xs.iter().any(|e| e.as_mapping().and_then(|m| m.get(ys("c"))).and_then(|v| v.as_str()) == Some("x"))),
+                            Some(_) => Some(false),
+                            None => None,
+                        };
+                        let want = match (inner, cond) { (Some(b), "A") => b, (Some(b), _) => !b, (None, _) => false };
+                        if (r1[j] == "T") != want {
+                            ctx.violation("oracle", &format!("`{}` with the block key `a.b` (mask {}) on {}: engine {}, the block at path a.b gives {}", cond, mask, serde_yaml::to_string(d).unwrap_or_default().replace('\n', " "), r1[j], want), &ex1, &rule_yaml(&c1), true);
+                            break;
+                        }
+                        // and where every step is an object the nested spelling agrees
+                        if matches!(d.as_mapping().and_then(|m| m.get(ys("a"))), Some(Yaml::Mapping(_))) && (r1[j] == "T") != (r2[j] == "T") {
+                            ctx.violation("oracle", &format!("block key `a.b` and nested `a: {{b: ..}}` disagree (mask {}) on {}", mask, serde_yaml::to_string(d).unwrap_or_default().replace('\n', " ")), &ex1, &rule_yaml(&c1), true);
                             break;
                         }
                     }
